@@ -50,7 +50,7 @@ def replay_cases(ctx, key):
     return out
 
 
-REPLAY_KEYS = {"mw": "mw_cases", "mws": "mws_cases", "win": "win_cases", "read": "read_cases", "fc": "fc_cases", "hbq": "hbq_cases", "reg": "reg_cases", "mat": "mat_cases",
+REPLAY_KEYS = {"mw": "mw_cases", "mws": "mws_cases", "mr": "mr_cases", "mrs": "mrs_cases", "win": "win_cases", "read": "read_cases", "fc": "fc_cases", "hbq": "hbq_cases", "reg": "reg_cases", "mat": "mat_cases",
                "wd": "wd_cases", "lb": "lb_cases"}
 
 
@@ -569,6 +569,9 @@ def mws_eval(ctx, cases, res, raced):
                      "free-running stress, %d goroutine(s) writing to one SCTPConn, network %s: buffered amount reached %d, bound %d%s"
                      % (c["k"], c["drain"], r["maxseen"], bound, "" if r["fired"] else " (no token was ever released)"),
                      {"mws_cases": [c], "observed": r})
+        if r.get("panics"):
+            ctx.fail("fc/panic", "free-running stress, %d goroutine(s) writing to one SCTPConn: Write panicked" % c["k"],
+                     {"mws_cases": [c], "observed": r})
         if r["hung"]:
             ctx.fail("fc/hang", "free-running stress: writers did not return within 5 s after Close", {"mws_cases": [c], "observed": r})
         if r["short"]:
@@ -602,6 +605,201 @@ def run_mws_race(ctx):
         driver_failed(ctx, "Go concurrent-writers stress driver (-race)", out)
         return
     mws_eval(ctx, cases, res, True)
+    rcases = gen_mrs_cases(ctx)
+    files["zz_verif_mr_test.go"] = "c16/mr_driver_test.go"
+    rc, out, res = ctx.go_inpkg(".", "pkg/dtls", files, "^TestVerifC16MrStress$", rcases, timeout=900, race=True)
+    if "WARNING: DATA RACE" in out:
+        ctx.fail("read/concurrent/data-race", "go test -race reports a data race with several goroutines reading one SCTPConn",
+                 {"race_report": out[out.index("WARNING: DATA RACE"):][:1500]})
+    if res is None or len(res) != len(rcases):
+        driver_failed(ctx, "Go concurrent-readers stress driver (-race)", out)
+        return
+    mrs_eval(ctx, rcases, res, True)
+
+
+# ------------------------------------------------------------------ (i) under concurrency: several goroutines reading one connection
+def gen_mr_cases(ctx):
+    rng = ctx.rng
+    quick = ctx.tier == "quick"
+    cases = []
+
+    def script_of(ms):
+        return [{"d": d.hex(), "e": -1 if e is None else e} for d, e in ms]
+    ctr = [1]
+
+    def data(n):
+        out = bytes((ctr[0] + j) % 251 + 1 for j in range(n))
+        ctr[0] += n
+        return out
+    # one reader inside the stream, the others queued on the read mutex; a message larger than any of their buffers is
+    # handed out piecewise to different goroutines; the error comes with the last piece
+    cases.append({"k": 2, "mx": 8, "script": script_of([(data(5), None), (data(2), None), (data(3), 30)]),
+                  "sizes": [[2, 2, 2, 2], [3, 3, 3, 3]], "policy": "all-first", "seed": 1})
+    cases.append({"k": 4, "mx": 8, "script": script_of([(data(8), None), (data(8), 31)]),
+                  "sizes": [[1, 1, 1], [2, 2], [3, 3], [1, 9, 1]], "policy": "all-first", "seed": 2})
+    cases.append({"k": 3, "mx": 4, "script": script_of([(data(4), None), (data(1), None), (b"", None), (data(3), None)]),
+                  "sizes": [[1, 9, 1], [2, 2, 2], [4, 1, 1]], "policy": "grant-first", "seed": 3})
+    for _ in range(30 if quick else 500):
+        k = rng.choice([2, 2, 3, 4])
+        mx = rng.choice([2, 3, 4, 8, 16])
+        ms = []
+        for _ in range(rng.randrange(1, 7)):
+            n = rng.choice([0, 1, mx - 1, mx, mx, rng.randrange(0, mx + 1)])
+            ms.append((data(n), rng.choice([None] * 7 + [20, 21])))
+        sizes = [[max(0, rng.choice([1, 1, 2, 3, mx - 1, mx, mx + 1, 2 * mx, 0])) for _ in range(rng.randrange(1, 6))] for _ in range(k)]
+        cases.append({"k": k, "mx": mx, "script": script_of(ms), "sizes": sizes,
+                      "policy": rng.choice(["all-first", "grant-first", "random"]), "seed": rng.randrange(1 << 30)})
+    rp = replay_cases(ctx, "mr_cases")
+    for c in rp:
+        cases.insert(0, c)
+    if ctx.replay:
+        cases = cases[:len(rp)]
+    return cases
+
+
+def mr_seq_read(state, script, n, mx):
+    """one sequential SCTPConn.Read on (buffer, offset, error, script position): used ONLY to choose among the possible serial
+    orders of one driver action (0-byte Reads are invisible in the results but not in the buffer); the chosen order is then
+    judged by the Coq model and by the oracle, never by this function"""
+    buf, off, err, pos = state
+    if off == len(buf):
+        cap = n if n >= mx else mx
+        if pos < len(script):
+            d, e = script[pos]
+            pos += 1
+            d, e = (d, e) if len(d) <= cap else (b"", E_SHORT)
+        else:
+            d, e = b"", E_EOS
+        if n >= mx:
+            return (buf, off, err, pos), (d, e)
+        buf, off, err = d, 0, e
+    out = buf[off:off + n]
+    off += len(out)
+    return (buf, off, err, pos), (out, err if off == len(buf) else None)
+
+
+def mr_linearize(c, r):
+    """The read mutex serialises the Reads; recover that order from the observables: by driver action, and within one action
+    (where a returning reader hands the mutex to the next) by search over the permutations of that action's returns -- the
+    reader that was inside the stream when the message was delivered first.  Returns (ordered [(size, (bytes, err))],
+    violation or None): a violation when NO serial order is accepted by the sequential read oracle."""
+    script = [msg(bytes.fromhex(m["d"] or ""), None if m["e"] < 0 else m["e"]) for m in c["script"]]
+    plain = [(m["d"], m["e"]) for m in script]
+    rc = read_case(False, c["mx"], b"\xaa\xbb", script, [])
+    order, state, explained = [], (b"", 0, None, 0), True
+    conv = lambda q: (q["size"], (bytes.fromhex(q["d"] or ""), None if q["e"] < 0 else q["e"]))
+    for ph in r.get("phases") or []:
+        rets = ph.get("rets") or []
+        if not rets:
+            continue
+        head = [q for q in rets if ph.get("op") == "G" and q["r"] == ph.get("t")]
+        tail = [q for q in rets if q not in head]
+        perms = [tuple(head) + p for p in itertools.permutations(tail)]
+        pick = None
+        if explained:
+            for perm in perms:
+                st2, ok = state, True
+                for q in perm:
+                    st2, got = mr_seq_read(st2, plain, q["size"], c["mx"])
+                    if got != conv(q)[1]:
+                        ok = False
+                        break
+                if ok:
+                    pick, state = perm, st2
+                    break
+        if pick is None:
+            explained = False
+            for perm in perms + list(itertools.permutations(rets)):
+                cand = order + [conv(q) for q in perm]
+                rc["sizes"] = [sz for sz, _ in cand]
+                if read_oracle(rc, [x for _, x in cand]) is None:
+                    pick = perm
+                    break
+        if pick is None:
+            cand = order + [conv(q) for q in rets]
+            rc["sizes"] = [sz for sz, _ in cand]
+            return cand, read_oracle(rc, [x for _, x in cand])
+        order += [conv(q) for q in pick]
+    rc["sizes"] = [sz for sz, _ in order]
+    return order, read_oracle(rc, [x for _, x in order])
+
+
+def run_mr(ctx):
+    cases = gen_mr_cases(ctx)
+    res, out = yield ("go", "mr", cases)
+    if res is None or len(res) != len(cases):
+        driver_failed(ctx, "Go concurrent-readers driver", out)
+        return
+    terms, tcases = [], []
+    for c, r in zip(cases, res):
+        phases = r.get("phases") or []
+        ctx.count((c["k"], c["mx"], str(c["script"]), str(c["sizes"]), c["policy"], c["seed"]), kind="mr/k=%d/%s" % (c["k"], c["policy"]))
+        if any(any(ph.get("parked") or []) for ph in phases):
+            ctx.count(("mrc", len(terms)), nontrivial=False, kind="mr/has-contention")
+        if any(len(ph.get("rets") or []) >= 2 for ph in phases):
+            ctx.count(("mrh", len(terms)), nontrivial=False, kind="mr/has-handover")
+        oversize = any(len(m["d"]) // 2 > c["mx"] for m in c["script"])
+        order, v = mr_linearize(c, r)
+        note = (r.get("note") or "").strip()
+        if any(x[1][1] in (E_HANG, E_PANIC) for x in order):
+            v = ("panic", "Read panicked")
+        if note:
+            v = v or ("hang", "driver: " + note)
+        if v is not None and not oversize:
+            ctx.fail("read/concurrent/" + v[0], "SCTPConn.Read from %d goroutines on one connection: no serial order of the Reads "
+                     "explains what they returned (%s)" % (c["k"], v[1]), {"mr_cases": [c], "observed": phases[:60]})
+        script = [(bytes.fromhex(m["d"] or ""), None if m["e"] < 0 else m["e"]) for m in c["script"]]
+        terms.append("CRead false %s %s %s %s %s" % (
+            gN(c["mx"]), hexs(b"\xaa\xbb"),
+            glist(script, lambda m: "(%s, %s)" % (bspec_in(m[0]), gopt(m[1], gN))),
+            glist([sz for sz, _ in order], gN),
+            glist([x for _, x in order], lambda x: "(%s, %s)" % (bspec_obs(x[0]), gopt(x[1], gN)))))
+        tcases.append((c, r))
+    try:
+        ctx.sample({"sub": "mr", "case": cases[0], "observed": res[0]})
+    except (IndexError, KeyError):
+        pass
+    mm = yield ("coq", terms)
+    if mm:
+        ctx.cov["mismatches"] += len(mm)
+        c, r = tcases[mm[0]]
+        ctx.broken("correspondence", "Reads of %d goroutines, put in the order the read mutex serialised them, differ from the sequential "
+                   "read model (sctp_read) on %d case(s)" % (c["k"], len(mm)), {"mr_cases": [c], "observed": (r.get("phases") or [])[:60]})
+
+
+def gen_mrs_cases(ctx):
+    if ctx.replay:
+        return replay_cases(ctx, "mrs_cases")
+    rng = ctx.rng
+    quick = ctx.tier == "quick"
+    out = []
+    for k, mx, rd in [(4, 64, 100), (8, 16, 5), (2, 300, 1000)] + ([] if quick else [(16, 64, 70), (3, 65535, 70000), (32, 8, 3)]):
+        out.append({"k": k, "mx": mx, "msgs": 300 if quick else 3000, "seed": rng.randrange(1 << 30), "max_rd": rd})
+    return out
+
+
+def mrs_eval(ctx, cases, res, raced):
+    for c, r in zip(cases, res):
+        ctx.count(("mrs", c["k"], c["mx"], c["seed"]), nontrivial=r["got"] > 0, kind="mr/stress" + ("+race" if raced else ""))
+        if r.get("panics"):
+            ctx.fail("read/concurrent/panic", "%d goroutines reading one SCTPConn: Read panicked (%d reader(s))" % (c["k"], r["panics"]),
+                     {"mrs_cases": [c], "observed": r})
+        elif r["hung"]:
+            ctx.fail("read/concurrent/hang", "free-running readers did not return within 5 s after Close", {"mrs_cases": [c], "observed": r})
+        elif r["got"] != r["fed"] or r["got_sum"] != r["fed_sum"] or r["overlong"]:
+            ctx.fail("read/concurrent/bytes-lost-or-duplicated", "%d goroutines reading one SCTPConn: %d bytes fed, %d returned (order-"
+                     "independent checksums %s)" % (c["k"], r["fed"], r["got"], "equal" if r["got_sum"] == r["fed_sum"] else "differ"),
+                     {"mrs_cases": [c], "observed": r})
+
+
+def run_mrs(ctx):
+    cases = gen_mrs_cases(ctx)
+    res, out = yield ("go", "mrs", cases)
+    if res is None or len(res) != len(cases):
+        driver_failed(ctx, "Go concurrent-readers stress driver", out)
+        return
+    mrs_eval(ctx, cases, res, False)
+    yield ("coq", [])
 
 
 # ------------------------------------------------------------------ (ii) queue under a schedule
@@ -1233,7 +1431,7 @@ def run(ctx):
     only = (ctx.replay or {}).get("only")
     if ctx.replay and not only:
         only = [k for k, v in REPLAY_KEYS.items() if replay_cases(ctx, v)] or ["none"]
-    subs = [("read", run_reads), ("fc", run_fc), ("mw", run_mw), ("mws", run_mws), ("hbq", run_hbq), ("win", run_win), ("hbb", run_hbb), ("reg", run_reg), ("mat", run_mat), ("wd", run_wd), ("lb", run_lb)]
+    subs = [("read", run_reads), ("fc", run_fc), ("mw", run_mw), ("mws", run_mws), ("mr", run_mr), ("mrs", run_mrs), ("hbq", run_hbq), ("win", run_win), ("hbb", run_hbb), ("reg", run_reg), ("mat", run_mat), ("wd", run_wd), ("lb", run_lb)]
     import time
     ctx.cov["timing_s"] = {}
     t0 = time.time()
@@ -1261,7 +1459,7 @@ def run(ctx):
     t0 = time.time()
     if want_go:
         files = dict(DRV)
-        for fn in ("read", "stream", "listener", "mw", "all"):
+        for fn in ("read", "stream", "listener", "mw", "mr", "all"):
             files["zz_verif_%s_test.go" % fn] = "c16/%s_driver_test.go" % fn
         batch = {req[1]: req[2] for req in want_go.values()}
         rc, out, res = ctx.go_inpkg(".", "pkg/dtls", files, "^TestVerifC16All$", batch, timeout=1500)
@@ -1298,4 +1496,4 @@ def run(ctx):
                            "lb/has-dup-refused", "wd/closed", "wd/open", "mat/from-secret-concrete-hkdf",
                            "hbq/closed+queue-timeout", "mw/k=1", "mw/k=2", "mw/k=4", "mw/k=8", "mw/has-contention",
                            "mw/has-held-back", "mw/has-stale-token", "mw/has-closed-while-blocked", "mw/has-limit",
-                           "mw/stress/never", "mw/stress/fast"])
+                           "mw/stress/never", "mw/stress/fast", "mr/has-contention", "mr/has-handover", "mr/stress"])
